@@ -70,8 +70,22 @@ def edge_programs(rng, n):
              "optional { end; } end;", "case { end -> { } /a*/ -> { } }",
              's = "0a1"b;', 's = "0a 1b"b;', 's = "61"b;', 'greedy case { "a" -> { } ("a" end) -> { } "ax" -> { } } if i == 0 { case { end -> { } "x" -> { } } }',
              's = "\u65e5\u672c";'.encode().decode("unicode_escape"), '"\u65e5";'.encode().decode("unicode_escape"), "b = [1 / 0];", "b = [1 << (0 - 1)];",
-             'case { "a" -> { i = 1; } else -> { i = 2; } else -> { i = 3; } }', '"a";\x0c', '\x0c"b" "c";', "i = [1 / (2 - 2)];", "i = [5 % 0];"]
+             'case { "a" -> { i = 1; } else -> { i = 2; } else -> { i = 3; } }', '"a";\x0c', '\x0c"b" "c";', "i = [1 / (2 - 2)];", "i = [5 % 0];",
+             'optional { if i == 0 { "a"; } else { "b"; } } "z";', "greedy case { else -> { i = 2; } }",
+             'case { "a" -> { if i == 0 { i = 1; } } "b" -> { i = 2; } } i = 5; "=";',
+             'greedy case { "a" -> { i = 1; } else -> { i = 2; } else -> { i = 3; } }']
     out = []
+    # programs that crashed the compiler once: always in the population
+    always = ['out int i = 0;\nparser { optional { if i == 0 { "a"; } else { "b"; } } "z"; }\n',
+              'out int i;\nparser { greedy case { else -> { i = 2; } } }\n',
+              'out int i;\nparser { greedy case { else -> { i = 2; } } "x"; }\n',
+              'out int i;\nout int k;\nparser { case { "a" -> { if k == 0 { i = 1; } } "b" -> { i = 2; } } k = 5; "="; }\n',
+              'out int i;\nparser { case { "a" -> { if i == 0 { i = 1; } } "b" -> {} } i = 2; "x"; }\n',
+              'out int i = 0;\nparser { loop { optional { if i == 0 { "a"; } } "z"; } }\n',
+              'out int i = 0;\nparser { try { if i == 0 { "a"; } else { "b"; } } catch { } "z"; }\n']
+    for k, src in enumerate(always):
+        for lvl in ("-O0", "-O1", "-O3"):
+            out.append({"name": f"always-{k}{lvl}", "src": src, "args": [lvl]})
     for k in range(n):
         nd = rng.randint(0, 5)
         decls = rng.sample(decl_bits, nd)
